@@ -3,6 +3,8 @@ package values
 import (
 	"fmt"
 	"reflect"
+	"sort"
+	"strings"
 )
 
 // Sprint formats value as fmt.Sprint does, with every Drop replaced by its
@@ -35,8 +37,33 @@ func plain(value any, depth int) any {
 		}
 		return out
 	case reflect.Map:
-		if k := rv.Type().Elem().Kind(); k != reflect.Interface && k != reflect.Ptr {
+		ek, kk := rv.Type().Elem().Kind(), rv.Type().Key().Kind()
+		if ek != reflect.Interface && ek != reflect.Ptr && kk != reflect.Interface && kk != reflect.Ptr {
 			return value
+		}
+		// keys that are Drops or pointers are shown as what they stand for as well; since two of them may stand
+		// for equal values (and for values that cannot be map keys), such a map is printed from a list of its entries
+		indirectKeys := false
+		for _, key := range rv.MapKeys() {
+			k := key.Interface()
+			if _, isDrop := k.(drop); isDrop || (k != nil && reflect.TypeOf(k).Kind() == reflect.Ptr) {
+				indirectKeys = true
+				break
+			}
+		}
+		if indirectKeys {
+			entries := make(plainMap, 0, rv.Len())
+			for _, key := range rv.MapKeys() {
+				k, v := plain(key.Interface(), depth+1), plain(rv.MapIndex(key).Interface(), depth+1)
+				entries = append(entries, plainEntry{fmt.Sprint(k), fmt.Sprint(v)})
+			}
+			sort.Slice(entries, func(i, j int) bool {
+				if entries[i].key != entries[j].key {
+					return entries[i].key < entries[j].key
+				}
+				return entries[i].value < entries[j].value
+			})
+			return entries
 		}
 		out := make(map[any]any, rv.Len())
 		for _, key := range rv.MapKeys() {
@@ -45,4 +72,17 @@ func plain(value any, depth int) any {
 		return out
 	}
 	return value
+}
+
+// A plainMap prints as a map does: map[k:v k:v], the entries in the order of their texts.
+type plainMap []plainEntry
+
+type plainEntry struct{ key, value string }
+
+func (m plainMap) String() string {
+	parts := make([]string, len(m))
+	for i, e := range m {
+		parts[i] = e.key + ":" + e.value
+	}
+	return "map[" + strings.Join(parts, " ") + "]"
 }
